@@ -23,7 +23,7 @@ TOLERANCES = "none (finiteness and structure only)"
 ASSUMPTIONS = ["mode size >= 2 for the Chebyshev/sine transforms (a one-node grid is undefined)", "d >= 2", "finite inputs",
                "validation data with zero norm is not passed (accuracy_on_data is outside this property's anchors)"]
 
-ROUTINES = ["truncate", "orthogonalize", "svd", "svd_matrix", "qtt", "add_many", "cross", "als", "anova", "anova_func", "func", "algebra"]
+ROUTINES = ["truncate", "orthogonalize", "svd", "svd_matrix", "qtt", "add_many", "cross", "als", "anova", "anova_func", "func", "algebra", "matrix_factor"]
 
 
 @st.composite
@@ -107,6 +107,9 @@ def cases(draw, tier):
         case["Y"] = draw(degenerate_specs(pow2=True))
     elif routine == "func":
         case["Y"] = draw(degenerate_specs(n_min=2))
+    elif routine == "matrix_factor":
+        case["m"] = draw(st.integers(1, 9)); case["n"] = draw(st.integers(1, 9))
+        case["mkind"] = draw(st.sampled_from(["zero", "const", "rank1", "one_entry", "zero_rows"]))
     elif routine in ("svd_matrix",):
         case["q"] = draw(st.integers(1, 3))
         case["mkind"] = draw(st.sampled_from(["zero", "const", "rank1", "identity", "one_entry"]))
@@ -137,7 +140,11 @@ def prop(case, ctx):
     routine, fl = case["routine"], case["flag"]
     rng = np.random.default_rng(case["seed"])
     ctx.nontrivial(True)
-    poison_heap(np.nan, fl)            # uninitialised memory that is read before being written shows up as NaN
+    def plib(f_, *a_, **k_):
+        # uninitialised memory that is read before being written shows up as NaN: poison right before every library call
+        # (building the arguments recycles freed blocks otherwise)
+        poison_heap(np.nan, fl)
+        return ctx.lib(f_, *a_, **k_)
     if "Y" in case:
         Y = build_degenerate(case["Y"], ctx)
         n = case["Y"]["spec"]["n"]
@@ -153,26 +160,43 @@ def prop(case, ctx):
     if routine == "truncate":
         e = [1e-10, 0.5, 1e-14][fl % 3]
         r = [1e12, 1, 2][(fl // 3) % 3]
-        Z = ctx.lib(teneva.truncate, Y, e, r, use_stab=bool(fl & 16), is_eigh=bool(fl & 32))
+        Z = plib(teneva.truncate, Y, e, r, use_stab=bool(fl & 16), is_eigh=bool(fl & 32))
         check_tt(ctx, Z, n, f"truncate(use_stab={bool(fl & 16)}, is_eigh={bool(fl & 32)})")
         rin, rout = oracle.ranks_of(Y), oracle.ranks_of(Z)
         ctx.check(all(a <= b for a, b in zip(rout, rin)) and max(rout) <= max(1, int(r)), "truncate: rank bound violated on a degenerate input", rin=rin, rout=rout)
     elif routine == "orthogonalize":
         k = fl % d
         stab = bool(fl & 16)
-        res = ctx.lib(teneva.orthogonalize, Y, k, stab)
+        res = plib(teneva.orthogonalize, Y, k, stab)
         Z = res[0] if stab else res
         check_tt(ctx, Z, n, f"orthogonalize(k={k}, use_stab={stab})")
         if stab:
             ctx.check(isinstance(res[1], int), "orthogonalize: exponent not an int")
         if d >= 2:
-            check_tt(ctx, ctx.lib(teneva.orthogonalize_left, Y, fl % (d - 1)), n, "orthogonalize_left")
-            check_tt(ctx, ctx.lib(teneva.orthogonalize_right, Y, 1 + fl % (d - 1)), n, "orthogonalize_right")
+            check_tt(ctx, plib(teneva.orthogonalize_left, Y, fl % (d - 1)), n, "orthogonalize_left")
+            check_tt(ctx, plib(teneva.orthogonalize_right, Y, 1 + fl % (d - 1)), n, "orthogonalize_right")
     elif routine == "svd":
         A = dense(Y)
         e = [1e-10, 1e-3 * max(oracle.fro(A), 1.0), 0.0 + 1e-300][fl % 3]
         r = [1e12, 1, 2][(fl // 3) % 3]
-        check_tt(ctx, ctx.lib(teneva.svd, A, e, r), n, "svd")
+        check_tt(ctx, plib(teneva.svd, A, e, r), n, "svd")
+    elif routine == "matrix_factor":
+        m_, n_ = case["m"], case["n"]
+        M = {"zero": np.zeros((m_, n_)), "const": np.full((m_, n_), -1.5), "rank1": np.outer(rng.normal(size=m_), rng.normal(size=n_))}.get(case["mkind"])
+        if M is None:
+            M = np.zeros((m_, n_))
+            M[int(rng.integers(0, m_)), int(rng.integers(0, n_))] = 2.0
+            if case["mkind"] == "zero_rows" and m_ > 1:
+                M[0] = rng.normal(size=n_)
+        for name, fn, kw in (("matrix_svd", teneva.matrix_svd, {}), ("matrix_skeleton", teneva.matrix_skeleton, {"give_to": "lrm"[fl % 3]})):
+            for e_ in (1e-10, 0.5):
+                for r_ in (1e12, 1):
+                    U, V = plib(fn, M, e_, r_, **kw)
+                    ctx.check(U.ndim == 2 and V.ndim == 2 and U.shape == (m_, U.shape[1]) and V.shape == (U.shape[1], n_) and 1 <= U.shape[1] <= max(1, int(r_)),
+                              f"{name} on a degenerate matrix: factor shapes are wrong", U=list(U.shape), V=list(V.shape))
+                    ctx.check(bool(np.all(np.isfinite(U)) and np.all(np.isfinite(V))), f"{name} on a degenerate matrix ({case['mkind']}): non-finite factor", e=e_, r=r_)
+                    if e_ < 1e-6 and r_ > 1:
+                        ctx.check(float(np.max(np.abs(U @ V - M))) <= 1e-6 * max(1.0, float(np.max(np.abs(M)))), f"{name} on a degenerate matrix: product differs from the matrix")
     elif routine == "svd_matrix":
         q = case["q"]
         N = 2 ** q
@@ -180,41 +204,41 @@ def prop(case, ctx):
              "rank1": np.outer(rng.normal(size=N), rng.normal(size=N))}.get(case["mkind"])
         if M is None:
             M = np.zeros((N, N)); M[int(rng.integers(0, N)), int(rng.integers(0, N))] = 2.0
-        Z = ctx.lib(teneva.svd_matrix, M, [1e-10, 1e-2][fl % 2], [1e12, 1][(fl // 2) % 2])
+        Z = plib(teneva.svd_matrix, M, [1e-10, 1e-2][fl % 2], [1e12, 1][(fl // 2) % 2])
         check_tt(ctx, Z, [4] * q, "svd_matrix") if q >= 2 else ctx.check(oracle.wellformed(Z, [4]) is None, "svd_matrix(q=1) malformed")
-        B = ctx.lib(teneva.full_matrix, Z)
+        B = plib(teneva.full_matrix, Z)
         ctx.check(B.shape == (N, N) and np.all(np.isfinite(B)), "full_matrix(svd_matrix(.)) not finite / wrong shape")
     elif routine == "qtt":
         qq = int(math.log2(n[0]))
-        Z = ctx.lib(teneva.tt_to_qtt, Y, [1e-12, 1e-3, 0.][fl % 3], [100, 1, 2][(fl // 3) % 3])
+        Z = plib(teneva.tt_to_qtt, Y, [1e-12, 1e-3, 0.][fl % 3], [100, 1, 2][(fl // 3) % 3])
         check_tt(ctx, Z, [2] * (qq * d), "tt_to_qtt")
-        check_tt(ctx, ctx.lib(teneva.qtt_to_tt, Z, qq), n, "qtt_to_tt")
+        check_tt(ctx, plib(teneva.qtt_to_tt, Z, qq), n, "qtt_to_tt")
     elif routine == "add_many":
-        items = [Y, ctx.lib(teneva.mul, Y, -1.), Y, 0, ctx.lib(teneva.const, n, 0.)][:2 + fl % 4]
-        Z = ctx.lib(teneva.add_many, items, [1e-10, 1e-2][fl % 2], [1e12, 1, 2][(fl // 2) % 3], 1 + (fl // 8) % 3)
+        items = [Y, plib(teneva.mul, Y, -1.), Y, 0, plib(teneva.const, n, 0.)][:2 + fl % 4]
+        Z = plib(teneva.add_many, items, [1e-10, 1e-2][fl % 2], [1e12, 1, 2][(fl // 2) % 3], 1 + (fl // 8) % 3)
         check_tt(ctx, Z, n, "add_many")
     elif routine == "algebra":
-        Y2 = ctx.lib(teneva.mul, Y, [0, -1., 2][fl % 3])
-        for name, Z, shp in (("add", ctx.lib(teneva.add, Y, Y2), n), ("sub", ctx.lib(teneva.sub, Y, Y2), n), ("mul", ctx.lib(teneva.mul, Y, Y2), n),
-                             ("add(number)", ctx.lib(teneva.add, Y, 0.), n), ("outer", ctx.lib(teneva.outer, Y, Y2), n + n)):
+        Y2 = plib(teneva.mul, Y, [0, -1., 2][fl % 3])
+        for name, Z, shp in (("add", plib(teneva.add, Y, Y2), n), ("sub", plib(teneva.sub, Y, Y2), n), ("mul", plib(teneva.mul, Y, Y2), n),
+                             ("add(number)", plib(teneva.add, Y, 0.), n), ("outer", plib(teneva.outer, Y, Y2), n + n)):
             check_tt(ctx, Z, shp, name)
     elif routine == "func":
         for kind in ("cheb", "sin"):
-            A = ctx.lib(teneva.func_int, Y, kind)
+            A = plib(teneva.func_int, Y, kind)
             check_tt(ctx, A, n, f"func_int(kind={kind})")
-            check_tt(ctx, ctx.lib(teneva.func_gets, A, None, kind), n, f"func_gets(kind={kind})")
-            check_tt(ctx, ctx.lib(teneva.func_gets, A, 3, kind), [3] * d, f"func_gets(m=3, kind={kind})")
-        Af = ctx.lib(teneva.func_int_full, dense(Y))
+            check_tt(ctx, plib(teneva.func_gets, A, None, kind), n, f"func_gets(kind={kind})")
+            check_tt(ctx, plib(teneva.func_gets, A, 3, kind), [3] * d, f"func_gets(m=3, kind={kind})")
+        Af = plib(teneva.func_int_full, dense(Y))
         ctx.check(Af.shape == tuple(n) and np.all(np.isfinite(Af)), "func_int_full not finite / wrong shape")
-        v = ctx.lib(teneva.func_sum, ctx.lib(teneva.func_int, Y), -1., 1.)
+        v = plib(teneva.func_sum, plib(teneva.func_int, Y), -1., 1.)
         ctx.check(np.isfinite(v), "func_sum not finite")
     elif routine == "cross":
         n = case["n"]
         F = target_dense(case["data"], n, rng)
-        Y0 = ctx.lib(teneva.rand, n, 1 + fl % 3, seed=int(case["seed"] % 1000))
+        Y0 = plib(teneva.rand, n, 1 + fl % 3, seed=int(case["seed"] % 1000))
         growth = bool(fl & 4)
         info = {}
-        Z = ctx.lib(teneva.cross, lambda I: F[tuple(I.T)], Y0, nswp=2 + fl % 2, dr_min=1 if growth else 0, dr_max=1 if growth else 0,
+        Z = plib(teneva.cross, lambda I: F[tuple(I.T)], Y0, nswp=2 + fl % 2, dr_min=1 if growth else 0, dr_max=1 if growth else 0,
                     info=info, cache={} if fl & 8 else None)
         check_tt(ctx, Z, n, f"cross on a {case['data']} target")
         ctx.check(not (isinstance(info["e"], float) and math.isnan(info["e"])) and not np.isnan(info["e"]), "cross: info['e'] is NaN", e=repr(info["e"]))
@@ -231,13 +255,13 @@ def prop(case, ctx):
             I = np.vstack([I, I, I[:2]])            # repeated samples
         y = F[tuple(I.T)]
         w = rng.uniform(0.5, 2, size=len(I)) if fl & 2 else None
-        Y0 = ctx.lib(teneva.rand, n, 1 + (fl // 4) % 2, seed=int(case["seed"] % 1000))
+        Y0 = plib(teneva.rand, n, 1 + (fl // 4) % 2, seed=int(case["seed"] % 1000))
         info = {}
         kw = dict(lamb=[1e-3, 1.0][(fl // 8) % 2], w=w)
         adaptive = bool(fl & 16) and d >= 3
         if adaptive:
             kw["r"] = 2
-        Z = ctx.lib(teneva.als, I, y, Y0, 2, None, info, **kw)
+        Z = plib(teneva.als, I, y, Y0, 2, None, info, **kw)
         check_tt(ctx, Z, n, f"als({'adaptive' if adaptive else 'constant rank'}) on {case['data']} data")
         ctx.check(not np.isnan(info["e"]), "als: info['e'] is NaN", e=repr(info["e"]))
     elif routine == "anova":
@@ -249,7 +273,7 @@ def prop(case, ctx):
         y = F[tuple(I.T)]
         shape = [len(np.unique(I[:, k])) for k in range(d)]
         order = 1 + (fl // 2) % 2
-        Z = ctx.lib(teneva.anova, I, y, 2 + (fl // 4) % 2, order, [0., 1e-10][(fl // 8) % 2], int(case["seed"] % 1000))
+        Z = plib(teneva.anova, I, y, 2 + (fl // 4) % 2, order, [0., 1e-10][(fl // 8) % 2], int(case["seed"] % 1000))
         check_tt(ctx, Z, shape, f"anova(order={order}) on {case['data']} data")
     elif routine == "anova_func":
         n = case["n"]
@@ -259,7 +283,7 @@ def prop(case, ctx):
             X = np.vstack([X, X[:3]])
         y = {"zero": np.zeros(len(X)), "const": np.full(len(X), 2.5)}.get(case["data"], X[:, 0] * 0 + (X[:, 0] > 0))
         nn = 2 + fl % 3
-        Z = ctx.lib(teneva.anova_func, X, y, nn, -1., 1., [1e-7, 1e-2][(fl // 4) % 2], [1e-8, None][(fl // 8) % 2])
+        Z = plib(teneva.anova_func, X, y, nn, -1., 1., [1e-7, 1e-2][(fl // 4) % 2], [1e-8, None][(fl // 8) % 2])
         check_tt(ctx, Z, [nn] * d, f"anova_func on {case['data']} data")
 
 
